@@ -361,6 +361,8 @@ EXPECT = {
   "write_ended_inside_pcm_frame"
  ],
  "C14": [
+  "c14_overfill_then_crash",
+  "c14_overfill_refused",
   "c14_more_than_32_frames",
   "c14_byte_granularity",
   "c14_crash_in_metadata",
